@@ -25,7 +25,13 @@ def main():
     scratch = tempfile.mkdtemp(prefix="refac_out_", dir="/tmp")
     out = {"dir": d, "repo_head": sh(["git", "-C", "/repo", "rev-parse", "--short", "HEAD"]).stdout.strip()}
     try:
-        assert sh([os.path.join(HERE, "mkwt.sh"), wt]).returncode == 0
+        base = os.environ.get("REFAC_BASE")  # a commit of /repo to build the scratch worktree from (default: HEAD)
+        if base:
+            assert sh(["git", "-C", "/repo", "worktree", "add", "--detach", wt, base]).returncode == 0
+            shutil.copy("/repo/src/urllib3/_version.py", os.path.join(wt, "src/urllib3/_version.py"))
+            out["repo_head"] = base
+        else:
+            assert sh([os.path.join(HERE, "mkwt.sh"), wt]).returncode == 0
         r = sh(["git", "-C", wt, "apply", os.path.join(d, "patch.diff")])
         out["patch_applies"] = r.returncode == 0
         if r.returncode != 0:
